@@ -582,13 +582,19 @@ package zygo
 //@ requires typeinv[Zlisp] distinctStacks(env)
 //@ C04 ensures r0 == nil && vmEff(env, 0, 1, 1)
 
+// (C09: one iteration of a tail-recursive function costs a RemoveScope and this prologue: the
+// prologue never fails and touches nothing but the scope stack and the program counter)
 //@ func (AddFuncScopeInstr).Execute
 //@ requires typeinv[Zlisp] distinctStacks(env)
-//@ C04 ensures r0 == nil && vmEff(env, 0, 1, 1)
+//@ requires typeinv[Stack] wfs(env.linearstack)
+//@ C04,C09 modifies env.pc, env.linearstack.tos, env.linearstack.elements, elems(env.linearstack.elements)
+//@ C04,C09 ensures r0 == nil && vmEff(env, 0, 1, 1)
 
 //@ func (RemoveScopeInstr).Execute
 //@ requires typeinv[Zlisp] distinctStacks(env)
-//@ C04 ensures ok: r0 == nil ==> vmEff(env, 0, -1, 1)
+//@ requires typeinv[Stack] wfs(env.linearstack)
+//@ C04,C09 modifies env.pc, env.linearstack.tos, env.linearstack.elements, elems(env.linearstack.elements)
+//@ C04,C09 ensures ok: r0 == nil ==> vmEff(env, 0, -1, 1)
 
 // (b) the compiler: every AddInstruction appends exactly one instruction; quote
 // emits exactly one push.
@@ -1545,3 +1551,18 @@ package zygo
 // dotted) reach AssignToSelection, whose symbol version cannot handle a plain symbol
 //@ func (AssignInstr).Execute
 //@ C01 assert a-plain-symbol-is-bound-not-selected @before call AssignToSelection[*]: !typeis(arg0, *SexpSymbol)
+
+// C04: loading a further chunk while an earlier one is still pending (loaded, not yet run):
+// the new chunk starts by popping the value the pending chunk will have left, whatever the
+// data stack holds at LOAD time; with nothing pending it starts with no pop.
+//@ func (*Zlisp).LoadExpressions
+//@ ghost pending := false @entry
+//@ ghost pending := !ret0 @after call ReachedEnd[0]
+//@ C04 assert pending-chunk-value-is-popped @before call GenerateBegin[0]: ite(pending, len(arg0.instructions) == 1 && typeis(arg0.instructions[0], PopInstr), len(arg0.instructions) == 0)
+
+// C02: a let evaluates its binding values in source order, first binding first
+//@ func (*Generator).GenerateLet
+//@ ghost nInit := 0 @entry
+//@ C02 assert let-values-in-source-order @before call Generate[1]: arg0 == gen && nInit < len(rstatements) && arg1 == rstatements[nInit]
+//@ ghost nInit := nInit + 1 @after call Generate[1]
+//@ C02 loop 2 invariant nInit == rangeindex + 1
